@@ -9,6 +9,7 @@
 -/
 import PCV.Model.IPALC
 import PCV.Proofs.IPABatch
+import PCV.Proofs.IPABatchErr
 import PCV.Proofs.PolyMore
 import PCV.Proofs.MarlinLC
 
@@ -572,10 +573,6 @@ def constSum : List (LC.LinComb F) → Label → F
   | [], _ => 0
   | lc :: lcs, l => (if lc.label = l then lcConstant lc else 0) + constSum lcs l
 
-/-- shift every value by an amount depending on its key -/
-def bump (err : Label × F → F) (evals : List ((Label × F) × F)) : List ((Label × F) × F) :=
-  evals.map fun e => (e.1, e.2 + err e.1)
-
 theorem bump_bump (e1 e2 : Label × F → F) (evals : List ((Label × F) × F)) :
     bump e2 (bump e1 evals) = bump (fun k => e1 k + e2 k) evals := by
   unfold bump
@@ -657,27 +654,6 @@ theorem adjustEvals_eq_bump :
       simp only [h, constSum, if_true, lcConstant]; ring
     · have h' : ¬ lc.label = k.1 := fun x => h x.symm
       simp only [h, h', constSum, if_false]; ring
-
-theorem lookupEval_bump (err : Label × F → F) (evals : List ((Label × F) × F)) (l : Label) (z : F) :
-    Marlin.lookupEval (bump err evals) l z = (Marlin.lookupEval evals l z).map (· + err (l, z)) := by
-  unfold Marlin.lookupEval bump
-  rw [List.foldl_map]
-  have : ∀ (acc : Option F),
-      List.foldl (fun acc (e : (Label × F) × F) => if (e.1, e.2 + err e.1).1 = (l, z) then some (e.1, e.2 + err e.1).2 else acc)
-        (acc.map (· + err (l, z))) evals
-      = (List.foldl (fun acc (e : (Label × F) × F) => if e.1 = (l, z) then some e.2 else acc) acc evals).map
-          (· + err (l, z)) := by
-    induction evals with
-    | nil => intro acc; rfl
-    | cons e es ih =>
-      intro acc
-      simp only [List.foldl_cons]
-      by_cases h : e.1 = (l, z)
-      · simp only [h, if_true]
-        exact ih (some e.2)
-      · simp only [h, if_false]
-        exact ih acc
-  exact this none
 
 /-! ### label lookups over the combinations -/
 
@@ -1100,6 +1076,427 @@ theorem checkCombinations_mixed (ck vk : CK F) (lcs : List (LC.LinComb F)) (poly
   unfold checkCombinations
   rw [combineAllV_mirror _ comms (lookupAgree_of_all ck polys comms sts hall hnf),
     combineAllP_mixed _ lcs hdom hex]
+
+/-! ### the verifier's loop, factored: commitments on one side, claimed values on the other -/
+
+/-- the commitment part of one verifier step (it does not read the claimed values) -/
+def stepAccV (comms : List (LComm F)) (k : Nat) (a : LCAccV F) (t : F × LC.LCTerm) :
+    Except Err (LCAccV F) :=
+  match lcStepV comms k (a, []) t with
+  | .error e => .error e
+  | .ok x => .ok x.1
+
+theorem lcStepV_factor (comms : List (LComm F)) (k : Nat) (a : LCAccV F) (e : List ((Label × F) × F))
+    (t : F × LC.LCTerm) :
+    lcStepV comms k (a, e) t
+      = match stepAccV comms k a t with
+        | .error x => .error x
+        | .ok a' => .ok (a', stepEvals a.label t e) := by
+  unfold stepAccV lcStepV stepEvals
+  cases ht : t.2 with
+  | one => rfl
+  | poly l =>
+    simp only
+    cases Marlin.lookupLast (fun (c : LComm F) => c.label) l comms with
+    | none => rfl
+    | some c =>
+      simp only
+      split
+      · split <;> rfl
+      · split <;> rfl
+
+theorem stepAccV_label (comms : List (LComm F)) (k : Nat) (a a' : LCAccV F) (t : F × LC.LCTerm)
+    (h : stepAccV comms k a t = .ok a') : a'.label = a.label := by
+  unfold stepAccV lcStepV at h
+  cases ht : t.2 with
+  | one => rw [ht] at h; simp only at h; injection h with h; rw [← h]
+  | poly l =>
+    rw [ht] at h
+    simp only at h
+    cases hl : Marlin.lookupLast (fun (c : LComm F) => c.label) l comms with
+    | none => rw [hl] at h; cases h
+    | some c =>
+      rw [hl] at h
+      simp only at h
+      by_cases c1 : k = 1 ∧ c.bound.isSome = true
+      · rw [if_pos c1] at h
+        by_cases c2 : t.1 ≠ 1
+        · rw [if_pos c2] at h; cases h
+        · rw [if_neg c2] at h
+          simp only at h
+          injection h with h; rw [← h]; rfl
+      · rw [if_neg c1] at h
+        by_cases c3 : c.bound.isSome = true
+        · rw [if_pos c3] at h; cases h
+        · rw [if_neg c3] at h
+          simp only at h
+          injection h with h; rw [← h]; rfl
+
+def loopAccV (comms : List (LComm F)) (k : Nat) : LCAccV F → List (F × LC.LCTerm) → Except Err (LCAccV F)
+  | a, [] => .ok a
+  | a, t :: ts =>
+    match stepAccV comms k a t with
+    | .error e => .error e
+    | .ok a' => loopAccV comms k a' ts
+
+theorem lcLoopV_factor (comms : List (LComm F)) (k : Nat) :
+    ∀ (ts : List (F × LC.LCTerm)) (a : LCAccV F) (e : List ((Label × F) × F)),
+      lcLoopV comms k (a, e) ts
+        = match loopAccV comms k a ts with
+          | .error x => .error x
+          | .ok a' => .ok (a', adjustTerms a.label ts e) := by
+  intro ts
+  induction ts with
+  | nil => intro a e; rfl
+  | cons t ts ih =>
+    intro a e
+    simp only [lcLoopV, loopAccV, lcStepV_factor]
+    cases hs : stepAccV comms k a t with
+    | error x => rfl
+    | ok a' =>
+      simp only
+      rw [ih, stepAccV_label comms k a a' t hs]
+      rfl
+
+/-- the commitment side of `check_combinations`' loop -/
+def combineAccV (comms : List (LComm F)) : List (LC.LinComb F) → Except Err (List (LCAccV F))
+  | [] => .ok []
+  | lc :: lcs =>
+    match loopAccV comms lc.terms.length (LCAccV.init lc.label) lc.terms with
+    | .error e => .error e
+    | .ok a =>
+      match combineAccV comms lcs with
+      | .error e => .error e
+      | .ok as => .ok (a :: as)
+
+/-- **`check_combinations`' loop, factored**: the combined commitments do not depend on the claimed
+values, and the values handed to `batch_check` are `adjustEvals` of the claimed ones -/
+theorem combineAllV_factor (comms : List (LComm F)) :
+    ∀ (lcs : List (LC.LinComb F)) (e : List ((Label × F) × F)),
+      combineAllV comms lcs e
+        = match combineAccV comms lcs with
+          | .error x => .error x
+          | .ok as => .ok (as, adjustEvals lcs e) := by
+  intro lcs
+  induction lcs with
+  | nil => intro e; rfl
+  | cons lc lcs ih =>
+    intro e
+    simp only [combineAllV, combineAccV, lcLoopV_factor]
+    cases h1 : loopAccV comms lc.terms.length (LCAccV.init lc.label) lc.terms with
+    | error x => rfl
+    | ok a =>
+      simp only
+      rw [ih]
+      cases h2 : combineAccV comms lcs with
+      | error x => rfl
+      | ok as => rfl
+
+/-- the commitments `check_combinations` hands to `batch_check` -/
+def verifierComms (comms : List (LComm F)) (lcs : List (LC.LinComb F)) : Except Err (List (LComm F)) :=
+  match combineAccV comms lcs with
+  | .error e => .error e
+  | .ok as => constructLabeledCommitments (lcInfoV as) (lcFlatV as)
+
+/-- **`check_combinations` is `batch_check`** on the combined commitments and the adjusted values -/
+theorem checkCombinations_eq (vk : VK F) (lcs : List (LC.LinComb F)) (comms : List (LComm F))
+    (qs : List (Query F)) (evals : List ((Label × F) × F)) (πs : List (Proof F)) (ξs ros rs : List F) :
+    checkCombinations vk lcs comms qs evals πs ξs ros rs
+      = match verifierComms comms lcs with
+        | .error e => .error e
+        | .ok lcC => batchCheck vk lcC qs (adjustEvals lcs evals) πs ξs ros rs := by
+  unfold checkCombinations verifierComms
+  rw [combineAllV_factor]
+  cases combineAccV comms lcs with
+  | error e => rfl
+  | ok as =>
+    simp only
+    cases constructLabeledCommitments (lcInfoV as) (lcFlatV as) with
+    | error e => rfl
+    | ok c => rfl
+
+/-- **master form of every perturbation.** Two statements (combination lists, commitments, claimed
+values) whose combined commitments differ by `errC` (per combination label) and whose adjusted values
+differ by `errV` (per key): if the first is accepted then — oracle outputs and randomizers held
+fixed — the second is accepted iff the defect shift of every point label vanishes. -/
+theorem checkCombinations_perturbed (vk : VK F) (lcs lcs' : List (LC.LinComb F))
+    (comms comms' : List (LComm F)) (qs : List (Query F)) (evals evals' : List ((Label × F) × F))
+    (πs : List (Proof F)) (ξs ros rs : List F) (lcC : List (LComm F))
+    (errC : Label → F) (errV : Label × F → F)
+    (h1 : verifierComms comms lcs = .ok lcC)
+    (h2 : verifierComms comms' lcs' = .ok (bumpComms errC lcC))
+    (hV : adjustEvals lcs' evals' = bump errV (adjustEvals lcs evals))
+    (hacc : checkCombinations vk lcs comms qs evals πs ξs ros rs = .ok true) :
+    checkCombinations vk lcs' comms' qs evals' πs ξs ros rs
+      = .ok (allZero (batchErrs vk lcC (adjustEvals lcs evals) errC errV (Marlin.groupQueries qs) πs ξs ros)) := by
+  rw [checkCombinations_eq, h1] at hacc
+  rw [checkCombinations_eq, h2, hV]
+  exact batchCheck_bump vk lcC qs _ πs ξs ros rs errC errV hacc
+
+/-- **a claimed value changed** (any set of claims, by `errV`) -/
+theorem lc_values_perturbed (vk : VK F) (lcs : List (LC.LinComb F)) (comms : List (LComm F))
+    (qs : List (Query F)) (evals : List ((Label × F) × F)) (πs : List (Proof F)) (ξs ros rs : List F)
+    (lcC : List (LComm F)) (errV : Label × F → F) (h1 : verifierComms comms lcs = .ok lcC)
+    (hacc : checkCombinations vk lcs comms qs evals πs ξs ros rs = .ok true) :
+    checkCombinations vk lcs comms qs (bump errV evals) πs ξs ros rs
+      = .ok (allZero (batchErrs vk lcC (adjustEvals lcs evals) (fun _ => 0) errV
+          (Marlin.groupQueries qs) πs ξs ros)) := by
+  apply checkCombinations_perturbed vk lcs lcs comms comms qs evals _ πs ξs ros rs lcC _ errV h1
+    (by rw [bumpComms_zero]; exact h1) _ hacc
+  rw [adjustEvals_eq_bump, adjustEvals_eq_bump, bump_bump, bump_bump]
+  apply bump_congr
+  intro k; ring
+
+/-- two combinations that differ only in the coefficients of their constant terms -/
+def SameShape (lc lc' : LC.LinComb F) : Prop :=
+  lc'.label = lc.label ∧
+  List.Forall₂ (fun (t t' : F × LC.LCTerm) => t'.2 = t.2 ∧ (t.2 ≠ .one → t'.1 = t.1)) lc.terms lc'.terms
+
+theorem stepAccV_shape (comms : List (LComm F)) (k : Nat) (a : LCAccV F) (t t' : F × LC.LCTerm)
+    (h : t'.2 = t.2 ∧ (t.2 ≠ .one → t'.1 = t.1)) : stepAccV comms k a t' = stepAccV comms k a t := by
+  obtain ⟨h1, h2⟩ := h
+  unfold stepAccV lcStepV
+  rw [h1]
+  cases ht : t.2 with
+  | one => rfl
+  | poly l => rw [h2 (by rw [ht]; simp)]
+
+theorem loopAccV_shape (comms : List (LComm F)) (k : Nat) :
+    ∀ (ts ts' : List (F × LC.LCTerm)),
+      List.Forall₂ (fun (t t' : F × LC.LCTerm) => t'.2 = t.2 ∧ (t.2 ≠ .one → t'.1 = t.1)) ts ts' →
+      ∀ a, loopAccV comms k a ts' = loopAccV comms k a ts := by
+  intro ts ts' h
+  induction h with
+  | nil => intro a; rfl
+  | cons hd _ ih =>
+    intro a
+    simp only [loopAccV, stepAccV_shape comms k a _ _ hd]
+    cases stepAccV comms k a _ with
+    | error e => rfl
+    | ok a' => exact ih a'
+
+theorem forall₂_length {α β : Type} {R : α → β → Prop} {xs : List α} {ys : List β}
+    (h : List.Forall₂ R xs ys) : ys.length = xs.length := by
+  induction h with
+  | nil => rfl
+  | cons _ _ ih => simp [ih]
+
+theorem combineAccV_shape (comms : List (LComm F)) :
+    ∀ (lcs lcs' : List (LC.LinComb F)), List.Forall₂ SameShape lcs lcs' →
+      combineAccV comms lcs' = combineAccV comms lcs := by
+  intro lcs lcs' h
+  induction h with
+  | nil => rfl
+  | cons hd _ ih =>
+    obtain ⟨hl, ht⟩ := hd
+    simp only [combineAccV, hl, forall₂_length ht, loopAccV_shape comms _ _ _ ht, ih]
+
+/-- **constant terms changed** on the verifier's side (any number of them, in any combinations):
+the combined commitments stay, every claimed value of a combination labelled `l` moves by minus
+the change of the constants of the combinations labelled `l` -/
+theorem lc_constants_perturbed (vk : VK F) (lcs lcs' : List (LC.LinComb F)) (comms : List (LComm F))
+    (qs : List (Query F)) (evals : List ((Label × F) × F)) (πs : List (Proof F)) (ξs ros rs : List F)
+    (lcC : List (LComm F)) (hs : List.Forall₂ SameShape lcs lcs')
+    (h1 : verifierComms comms lcs = .ok lcC)
+    (hacc : checkCombinations vk lcs comms qs evals πs ξs ros rs = .ok true) :
+    checkCombinations vk lcs' comms qs evals πs ξs ros rs
+      = .ok (allZero (batchErrs vk lcC (adjustEvals lcs evals) (fun _ => 0)
+          (fun k => -(constSum lcs' k.1 - constSum lcs k.1)) (Marlin.groupQueries qs) πs ξs ros)) := by
+  apply checkCombinations_perturbed vk lcs lcs' comms comms qs evals evals πs ξs ros rs lcC _ _ h1
+    _ _ hacc
+  · rw [bumpComms_zero]
+    unfold verifierComms at h1 ⊢
+    rw [combineAccV_shape comms lcs lcs' hs]
+    exact h1
+  · rw [adjustEvals_eq_bump, adjustEvals_eq_bump, bump_bump]
+    apply bump_congr
+    intro k; ring
+
+/-! ### a coefficient changed -/
+
+/-- shift the unshifted part of the combined commitment -/
+def LCAccV.shiftComm (a : LCAccV F) (e : F) : LCAccV F := { a with comm := a.comm + e }
+
+theorem stepAccV_shiftComm (comms : List (LComm F)) (k : Nat) (a : LCAccV F) (e : F)
+    (t : F × LC.LCTerm) :
+    stepAccV comms k (a.shiftComm e) t
+      = match stepAccV comms k a t with
+        | .error x => .error x
+        | .ok a' => .ok (a'.shiftComm e) := by
+  unfold stepAccV lcStepV
+  cases ht : t.2 with
+  | one => rfl
+  | poly l =>
+    simp only
+    cases Marlin.lookupLast (fun (c : LComm F) => c.label) l comms with
+    | none => rfl
+    | some c =>
+      simp only
+      by_cases c1 : k = 1 ∧ c.bound.isSome = true
+      · rw [if_pos c1, if_pos c1]
+        by_cases c2 : t.1 ≠ 1
+        · rw [if_pos c2, if_pos c2]
+        · rw [if_neg c2, if_neg c2]
+          simp only [LCAccV.addTerm, LCAccV.shiftComm]
+          congr 2; ring
+      · rw [if_neg c1, if_neg c1]
+        by_cases c3 : c.bound.isSome = true
+        · rw [if_pos c3, if_pos c3]
+        · rw [if_neg c3, if_neg c3]
+          simp only [LCAccV.addTerm, LCAccV.shiftComm]
+          congr 2; ring
+
+theorem loopAccV_shiftComm (comms : List (LComm F)) (k : Nat) (e : F) :
+    ∀ (ts : List (F × LC.LCTerm)) (a : LCAccV F),
+      loopAccV comms k (a.shiftComm e) ts
+        = match loopAccV comms k a ts with
+          | .error x => .error x
+          | .ok a' => .ok (a'.shiftComm e) := by
+  intro ts
+  induction ts with
+  | nil => intro a; rfl
+  | cons t ts ih =>
+    intro a
+    simp only [loopAccV, stepAccV_shiftComm]
+    cases stepAccV comms k a t with
+    | error x => rfl
+    | ok a' => exact ih a'
+
+/-- **a coefficient changed** by `δ` on a term naming the unbounded polynomial `m` (its commitment
+`cm` has no shifted part): the combined commitment of that combination moves by `δ·cm` -/
+theorem loopAccV_coeff (comms : List (LComm F)) (k : Nat) (m : Label) (cm : LComm F) (c δ : F)
+    (hm : Marlin.lookupLast (fun (c : LComm F) => c.label) m comms = some cm)
+    (hb : cm.bound = none) (hs : cm.comm.shifted = none) (t2 : List (F × LC.LCTerm)) :
+    ∀ (t1 : List (F × LC.LCTerm)) (a : LCAccV F),
+      loopAccV comms k a (t1 ++ (c + δ, .poly m) :: t2)
+        = match loopAccV comms k a (t1 ++ (c, .poly m) :: t2) with
+          | .error x => .error x
+          | .ok a' => .ok (a'.shiftComm (cm.comm.comm * δ)) := by
+  intro t1
+  induction t1 with
+  | nil =>
+    intro a
+    have hstep : ∀ (x : F), stepAccV comms k a (x, .poly m) = .ok (a.addTerm x cm) := by
+      intro x
+      unfold stepAccV lcStepV
+      simp only [hm, hb, Option.isSome_none, Bool.false_eq_true, and_false, if_false]
+    simp only [List.nil_append, loopAccV, hstep]
+    have e : a.addTerm (c + δ) cm = (a.addTerm c cm).shiftComm (cm.comm.comm * δ) := by
+      simp only [LCAccV.addTerm, LCAccV.shiftComm, hs, combineShiftedComm]
+      congr 1; ring
+    rw [e]
+    exact loopAccV_shiftComm comms k _ t2 _
+  | cons t t1 ih =>
+    intro a
+    simp only [List.cons_append, loopAccV]
+    cases stepAccV comms k a t with
+    | error x => rfl
+    | ok a' => exact ih a'
+
+theorem termsConstant_poly (t1 t2 : List (F × LC.LCTerm)) (m : Label) (x : F) :
+    termsConstant (t1 ++ (x, LC.LCTerm.poly m) :: t2) = termsConstant t1 + termsConstant t2 := by
+  induction t1 with
+  | nil => simp [termsConstant]
+  | cons t ts ih => simp only [List.cons_append, termsConstant, ih]; ring
+
+/-- the single-combination case end to end: see `ipa_lc_coefficient_defect_partial` -/
+theorem lc_coefficient_perturbed_single (vk : VK F) (l : Label) (t1 t2 : List (F × LC.LCTerm))
+    (m : Label) (cm : LComm F) (c δ : F) (comms : List (LComm F))
+    (hm : Marlin.lookupLast (fun (c : LComm F) => c.label) m comms = some cm)
+    (hb : cm.bound = none) (hs : cm.comm.shifted = none)
+    (qs : List (Query F)) (evals : List ((Label × F) × F)) (πs : List (Proof F)) (ξs ros rs : List F)
+    (lcC : List (LComm F))
+    (h1 : verifierComms comms [⟨l, t1 ++ (c, .poly m) :: t2⟩] = .ok lcC)
+    (hacc : checkCombinations vk [⟨l, t1 ++ (c, .poly m) :: t2⟩] comms qs evals πs ξs ros rs = .ok true) :
+    checkCombinations vk [⟨l, t1 ++ (c + δ, .poly m) :: t2⟩] comms qs evals πs ξs ros rs
+      = .ok (allZero (batchErrs vk lcC (adjustEvals [⟨l, t1 ++ (c, .poly m) :: t2⟩] evals)
+          (fun l' => if l' = l then cm.comm.comm * δ else 0) (fun _ => 0)
+          (Marlin.groupQueries qs) πs ξs ros)) := by
+  apply checkCombinations_perturbed vk _ _ comms comms qs evals evals πs ξs ros rs lcC _ _ h1 _ _ hacc
+  · unfold verifierComms combineAccV at h1 ⊢
+    have hlen : (t1 ++ (c + δ, LC.LCTerm.poly m) :: t2).length = (t1 ++ (c, LC.LCTerm.poly m) :: t2).length := by
+      simp
+    simp only [hlen, loopAccV_coeff comms _ m cm c δ hm hb hs t2 t1]
+    cases hl : loopAccV comms (t1 ++ (c, LC.LCTerm.poly m) :: t2).length (LCAccV.init l)
+        (t1 ++ (c, LC.LCTerm.poly m) :: t2) with
+    | error x => rw [hl] at h1; cases h1
+    | ok a =>
+      rw [hl] at h1
+      simp only [combineAccV] at h1 ⊢
+      have hlab : a.label = l := by
+        have : ∀ (ts : List (F × LC.LCTerm)) (a0 a1 : LCAccV F),
+            loopAccV comms (t1 ++ (c, LC.LCTerm.poly m) :: t2).length a0 ts = .ok a1 → a1.label = a0.label := by
+          intro ts
+          induction ts with
+          | nil => intro a0 a1 h; simp only [loopAccV] at h; injection h with h; rw [h]
+          | cons t ts ih =>
+            intro a0 a1 h
+            simp only [loopAccV] at h
+            split at h
+            · cases h
+            · rename_i a2 h2
+              rw [ih a2 a1 h, stepAccV_label comms _ a0 a2 t h2]
+        exact this _ _ a hl
+      cases hb' : a.bound with
+      | none =>
+        cases hs' : a.shifted with
+        | none =>
+          simp only [lcInfoV, lcFlatV, LCAccV.flat, LCAccV.shiftComm, hb', hs', List.map_cons, List.map_nil,
+            Option.toList_none, List.append_nil, constructLabeledCommitments] at h1 ⊢
+          injection h1 with h1
+          subst h1
+          simp [bumpComms, bumpC, hlab]
+        | some sc =>
+          simp only [lcInfoV, lcFlatV, LCAccV.flat, LCAccV.shiftComm, hb', hs', List.map_cons, List.map_nil,
+            Option.toList_some, List.append_nil, constructLabeledCommitments] at h1 ⊢
+          injection h1 with h1
+          subst h1
+          simp [bumpComms, bumpC, hlab]
+      | some d =>
+        cases hs' : a.shifted with
+        | none =>
+          simp [lcInfoV, lcFlatV, LCAccV.flat, hb', hs', constructLabeledCommitments] at h1
+        | some sc =>
+          simp only [lcInfoV, lcFlatV, LCAccV.flat, LCAccV.shiftComm, hb', hs', List.map_cons, List.map_nil,
+            Option.toList_some, List.append_nil, constructLabeledCommitments] at h1 ⊢
+          injection h1 with h1
+          subst h1
+          simp [bumpComms, bumpC, hlab]
+  · have : adjustEvals [(⟨l, t1 ++ (c + δ, LC.LCTerm.poly m) :: t2⟩ : LC.LinComb F)] evals
+        = adjustEvals [(⟨l, t1 ++ (c, LC.LCTerm.poly m) :: t2⟩ : LC.LinComb F)] evals := by
+      rw [adjustEvals_eq_bump, adjustEvals_eq_bump]
+      apply bump_congr
+      intro k
+      have := termsConstant_poly t1 t2 m
+      simp only [constSum, lcConstant, this]
+    rw [this]
+    exact (bump_zero _).symm
+
+/-! ### an underlying evaluation changed -/
+
+/-- the sum of the coefficients of the terms naming `m` -/
+def coeffSum (m : Label) : List (F × LC.LCTerm) → F
+  | [] => 0
+  | t :: ts => (if t.2 = .poly m then t.1 else 0) + coeffSum m ts
+
+/-- **an underlying evaluation changed**: if the evaluation of the polynomial `m` is off by `δ`, the
+value of a combination computed from it is off by `δ` times the coefficients of `m` in it -/
+theorem value_shift (lc : LC.LinComb F) (σ : Label → F) (m : Label) (δ : F) :
+    LC.value lc (fun l => σ l + if l = m then δ else 0) = LC.value lc σ + δ * coeffSum m lc.terms := by
+  unfold LC.value
+  generalize lc.terms = ts
+  induction ts with
+  | nil => simp [LC.termsValue, coeffSum]
+  | cons t ts ih =>
+    simp only [LC.termsValue, coeffSum, ih]
+    cases ht : t.2 with
+    | one => simp [LC.termVal]; ring
+    | poly l =>
+      simp only [LC.termVal]
+      by_cases h : l = m
+      · subst h; simp; ring
+      · have : ¬ (LC.LCTerm.poly l = LC.LCTerm.poly m) := by intro hx; injection hx with hx; exact h hx
+        simp [h, this]; ring
 
 end IPA
 end PCV
